@@ -105,160 +105,48 @@ def takeDigits : List UInt8 → Nat → Nat → Nat × Nat × List UInt8
   | c :: cs, acc, n =>
     if isDigit c then takeDigits cs (acc * 10 + (c.toNat - 0x30)) (n + 1) else (acc, n, c :: cs)
 
-inductive Num
-  | u8 (v : UInt8)
-  /-- anything else: a JSON number that is not a `u8` (negative, > 255, fraction, exponent), or a
-  malformed number token; in both cases `serde_json` raises an error at a definite position -/
-  | other
+/-- A JSON number token that `u8::deserialize` accepts: `0` or `[1-9][0-9]*` with value ≤ 255,
+  not continued by a digit (leading zero), a fraction or an exponent.  Everything else (negative
+  numbers, floats, `null`, strings, …) is an error. -/
+def parseU8 (s : List UInt8) : Option (UInt8 × List UInt8) :=
+  let tok : Option (Nat × List UInt8) := match s with
+    | 0x30 :: r => some (0, r)
+    | c :: _ => if isDigit c then let (v, _, r) := takeDigits s 0 0; some (v, r) else none
+    | [] => none
+  match tok with
+  | none => none
+  | some (v, r) =>
+    let continued := match r with
+      | c :: _ => isDigit c || c == 0x2e || c == 0x65 || c == 0x45
+      | [] => false
+    if continued || v > 255 then none else some (UInt8.ofNat v, r)
 
-/-- `Deserializer::parse_integer` + `parse_number` + `parse_decimal` + `parse_exponent` of
-  serde_json 1.0.151 as far as the READER POSITION is concerned: returns the classification and
-  the unread rest of the input at the moment `u8::deserialize` returns. -/
-def parseNumber (s : List UInt8) : Num × List UInt8 :=
-  let (negative, s) := match s with
-    | 0x2d :: r => (true, r)
-    | _ => (false, s)
-  -- integer part: `next_char` consumes one character unconditionally
-  match s with
-  | [] => (.other, [])
-  | c :: r =>
-    let intPart : Option (Nat × List UInt8) × List UInt8 :=
-      if c == 0x30 then
-        match r with
-        | d :: _ => if isDigit d then (none, r) else (some (0, r), r)   -- leading zero: error AT the digit
-        | [] => (some (0, r), r)
-      else if isDigit c then
-        let (v, _, r') := takeDigits (c :: r) 0 0
-        (some (v, r'), r')
-      else (none, r)                                                    -- the bad character is consumed
-    match intPart with
-    | (none, pos) => (.other, pos)
-    | (some (v, s), _) =>
-      -- fraction: `.` must be followed by a digit, else error at (not after) the next character
-      let frac : Option (Bool × List UInt8) × List UInt8 := match s with
-        | 0x2e :: r =>
-          let (_, n, r') := takeDigits r 0 0
-          if n == 0 then (none, r) else (some (true, r'), r')
-        | _ => (some (false, s), s)
-      match frac with
-      | (none, pos) => (.other, pos)
-      | (some (hasFrac, s), _) =>
-        -- exponent: after `e`, optional sign, one character is consumed and must be a digit
-        let exp : Option (Bool × List UInt8) × List UInt8 := match s with
-          | c :: r =>
-            if c == 0x65 || c == 0x45 then
-              let r := match r with
-                | 0x2b :: r' => r'
-                | 0x2d :: r' => r'
-                | _ => r
-              match r with
-              | [] => (none, [])
-              | d :: r' =>
-                if isDigit d then
-                  let (_, _, r'') := takeDigits r' 0 0
-                  (some (true, r''), r'')
-                else (none, r')
-            else (some (false, s), s)
-          | [] => (some (false, s), s)
-        match exp with
-        | (none, pos) => (.other, pos)
-        | (some (hasExp, s), _) =>
-          if !negative && !hasFrac && !hasExp && v ≤ 255 then (.u8 (UInt8.ofNat v), s)
-          else (.other, s)
-
-/-- Outcome of `SeqAccess::next_element::<u8>()`, with the reader position afterwards. -/
-inductive Elem
-  | val (v : UInt8) (rest : List UInt8)
-  /-- `]` seen (not consumed): `Ok(None)` -/
-  | close (rest : List UInt8)
-  /-- `,` followed by `]`: `Err(TrailingComma)`; the reader is AT the `]` -/
-  | trailingComma (rest : List UInt8)
-  /-- an error; `rest` is the unread input at that moment -/
-  | bad (rest : List UInt8)
-  /-- reader position not modelled (`\u` escapes) -/
-  | unmodelled
-  | eof
-
-/-- `parse_ident`: each expected character is consumed by `next_char` and compared. -/
-def parseIdent : List UInt8 → List UInt8 → List UInt8
-  | [], s => s
-  | _ :: _, [] => []
-  | e :: es, c :: cs => if c == e then parseIdent es cs else cs
-
-/-- Position after `parse_str` (validating flavour) has run on the body of a string: `none` for
-  `\u` escapes (not modelled). -/
-def skipString : List UInt8 → Option (List UInt8)
-  | [] => some []
-  | c :: cs =>
-    if c == 0x22 then some cs                       -- closing quote (UTF-8 errors come after it)
-    else if c == 0x5c then
-      match cs with
-      | [] => some []
-      | e :: cs' =>
-        if e == 0x75 then none
-        else if e == 0x22 || e == 0x5c || e == 0x2f || e == 0x62 || e == 0x66 || e == 0x6e
-                || e == 0x72 || e == 0x74 then skipString cs'
-        else some cs'                               -- InvalidEscape, raised after consuming `e`
-    else if c < 0x20 then some cs                   -- control character: consumed, then error
-    else skipString cs
-
-/-- `u8::deserialize` at the start of a value (whitespace already skipped). -/
-def parseValue (s : List UInt8) : Elem :=
-  match s with
-  | [] => .eof
-  | c :: r =>
-    if c == 0x2d || isDigit c then
-      match parseNumber s with
-      | (.u8 v, r) => .val v r
-      | (.other, r) => .bad r
-    -- `peek_invalid_type`: literals and strings are consumed before the error is built
-    else if c == 0x6e then .bad (parseIdent "ull".toUTF8.toList r)
-    else if c == 0x74 then .bad (parseIdent "rue".toUTF8.toList r)
-    else if c == 0x66 then .bad (parseIdent "alse".toUTF8.toList r)
-    else if c == 0x22 then
-      match skipString r with
-      | some r' => .bad r'
-      | none => .unmodelled
-    else .bad s                                     -- `[`, `{`, anything else: nothing consumed
-
-def nextElem (first : Bool) (s : List UInt8) : Elem :=
+/-- `SeqAccess::next_element::<u8>()` returning `Ok(Some(v))`: optional whitespace, a `,` unless
+  this is the first element, optional whitespace, a `u8`.  `none` = end of sequence or error. -/
+def nextElem (first : Bool) (s : List UInt8) : Option (UInt8 × List UInt8) :=
   match skipWs s with
-  | [] => .eof
+  | [] => none
   | c :: r =>
-    if c == 0x5d then .close (c :: r)
-    else if c == 0x2c && !first then
-      match skipWs r with
-      | [] => .eof
-      | c' :: r' => if c' == 0x5d then .trailingComma (c' :: r') else parseValue (c' :: r')
-    else if first then parseValue (c :: r)
-    else .bad (c :: r)
+    if first then parseU8 (c :: r)
+    else if c == 0x2c then parseU8 (skipWs r)
+    else none
 
 /-- Read exactly `n` `u8` elements. -/
 def readElems : Nat → Bool → List UInt8 → Option (List UInt8 × List UInt8)
   | 0, _, s => some ([], s)
   | n + 1, first, s =>
     match nextElem first s with
-    | .val v r => (readElems n false r).map fun (vs, r') => (v :: vs, r')
-    | _ => none
+    | some (v, r) => (readElems n false r).map fun (vs, r') => (v :: vs, r')
+    | none => none
 
-/-- `Deserializer::end_seq` followed by `Deserializer::end` (only whitespace may follow). -/
+/-- After the last element: the next token must be `]` (`end_seq`; for `VerifyingKey` /
+  `SigningKey` the visitor's own `remaining` loop requires the same, every other continuation
+  — more elements of any kind, a trailing comma — is an error), and only whitespace may follow
+  (`Deserializer::end`). -/
 def endSeqAndEnd (s : List UInt8) : Bool :=
   match skipWs s with
   | c :: r => c == 0x5d && (skipWs r).isEmpty
   | [] => false
-
-/-- Where the `remaining` loop of the `VerifyingKey`/`SigningKey` visitor stops:
-  `(number of further valid elements, reader position)`; `none` = not modelled. -/
-def countRemaining : Nat → Nat → List UInt8 → Option (Nat × List UInt8)
-  | 0, cnt, s => some (cnt, s)
-  | fuel + 1, cnt, s =>
-    match nextElem false s with
-    | .val _ r => countRemaining fuel (cnt + 1) r
-    | .close r => some (cnt, r)
-    | .trailingComma r => some (cnt, r)
-    | .bad r => some (cnt, r)
-    | .eof => some (cnt, [])
-    | .unmodelled => none
 
 /-- `parse_str_raw` on the body of a JSON string: the unescaped bytes and the rest after the
   closing quote.  No UTF-8 or control-character validation in this flavour.  `none`: error (EOF,
@@ -290,21 +178,11 @@ def jsonDe (ty : Ty) (input : List UInt8) : DeResult :=
       match readElems ty.len true body with
       | none => .err
       | some (bytes, rest) =>
-        if ty.bytesStyle then
-          -- `visit_seq` of the key visitors: count the remaining well-formed elements, swallowing
-          -- the error (if any) that ends the count; then `end_seq` runs at the reader position.
-          match countRemaining (rest.length + 1) 0 rest with
-          | none => .skip
-          | some (cnt, pos) =>
-            if cnt > 0 then .err
-            else match validate ty bytes with
-              | none => .err
-              | some native => if endSeqAndEnd pos then .ok native else .err
-        else
-          match validate ty bytes with
-          | none => .err
-          | some native => if endSeqAndEnd rest then .ok native else .err
+        match validate ty bytes with
+        | none => .err
+        | some native => if endSeqAndEnd rest then .ok native else .err
     else if c == 0x22 && ty.bytesStyle then
+      -- `deserialize_bytes` on a JSON string: `visit_bytes` with its raw bytes
       match readRawString body [] with
       | none => .err
       | some none => .skip
